@@ -173,7 +173,7 @@ class PathResult:
     def __init__(self, end, ret, trace, assume, env, decisions):
         self.end = end          # "return" | "fallthrough" | "iter-end" | "abort"
         self.ret = ret
-        self.trace = trace      # [("call", fn, args, sp) | ("assign", name, value, sp) | ("iter-end", {..}) | ("await", v, sp) | ("abort", why)]
+        self.trace = trace      # [("call", fn, args, sp) | ("assign", name, value, sp) | ("iter-end", {..}, loop sp) | ("loop-enter", loop sp) | ("await", v, sp) | ("abort", why)]
         self.assume = assume    # {vstr(value): variant-or-bool}
         self.env = env
         self.decisions = decisions
@@ -726,6 +726,7 @@ class Interp:
         raise _Infeasible()
 
     def ev_loop(self, e, env, depth):
+        self.trace.append(("loop-enter", e.get("sp")))
         if self.havoc_loops:
             for n in assigned_vars(e["body"]) + self.mut_passed_vars(e["body"]):
                 if n in env:
@@ -737,7 +738,7 @@ class Interp:
             return b.value
         except _IterEnd:
             pass
-        self.trace.append(("iter-end", {n: env.get(n) for n in assigned_vars(e["body"]) + self.mut_passed_vars(e["body"]) if n in env}))
+        self.trace.append(("iter-end", {n: env.get(n) for n in assigned_vars(e["body"]) + self.mut_passed_vars(e["body"]) if n in env}, e.get("sp")))
         raise _IterEnd()
 
     def mut_passed_vars(self, body):
